@@ -13,7 +13,7 @@
 // ledger (header path / block path) must equal the reference sets, and a rejected call must leave
 // heights and tip unchanged.
 //
-// Part 2 (hand-over histories): mc.BFS over event sequences (depth 3 quick / 4 thorough) on fresh
+// Part 2 (hand-over histories): mc.BFS over event sequences (depth 2-3 quick / 3-4 thorough) on fresh
 // ledgers: plain / config-announcing (add, remove, replace a validator) blocks and headers signed by the
 // set in force, by the previous set, by one signer too few, with a wrong block root or a wrong state root
 // (rejected after signature verification), and restart. The reference model changes the set in force
@@ -261,7 +261,11 @@ type sim struct {
 
 var tmpDirs sync.Map
 
+var tOpen, tCall, tClose, nOpen int64
+
 func openSim(tag string, gvals []*polyenv.Acct, g *types.Block, main bool) *sim {
+	t0 := time.Now()
+	defer func() { atomic.AddInt64(&tOpen, int64(time.Since(t0))); atomic.AddInt64(&nOpen, 1) }()
 	dir := polyenv.TmpDir("c14-")
 	tmpDirs.Store(dir, true)
 	l, err := ledgerstore.NewLedgerStore(dir)
@@ -276,6 +280,8 @@ func openSim(tag string, gvals []*polyenv.Acct, g *types.Block, main bool) *sim 
 }
 
 func (s *sim) close() {
+	t0 := time.Now()
+	defer func() { atomic.AddInt64(&tClose, int64(time.Since(t0))) }()
 	s.ch.Close()
 	os.RemoveAll(s.ch.Dir)
 	tmpDirs.Delete(s.ch.Dir)
@@ -379,6 +385,8 @@ const (
 func (s *sim) call(path string, sp sigSpec, newSet []*polyenv.Acct, defect, key string, trace []string) callOut {
 	L := s.ch.L
 	s.seq++
+	t0 := time.Now()
+	defer func() { atomic.AddInt64(&tCall, int64(time.Since(t0))) }()
 	isHdr := path == pHdr
 	bh0, bhash0, hh0 := L.GetCurrentBlockHeight(), L.GetCurrentBlockHash(), L.GetCurrentHeaderHeight()
 	if hh0 != s.hdrTip {
@@ -657,15 +665,31 @@ func (s *sim) key() string {
 		names(s.blkSet), names(s.hdrSet), names(s.prevBlk), names(s.prevHdr), s.blkCfgH, s.fresh)
 }
 
-var handoverEvents = []string{
-	"A:plain/all", "S:plain/all", "H:plain/all",
+// thorough alphabet; the quick tier drops the events marked (t) — the same hand-over kind through the
+// other block path — and keeps "restart" last.
+var handoverEventsAll = []string{
+	"A:plain/all", "S:plain/all(t)", "H:plain/all",
 	"A:plain/under", "H:plain/under",
-	"A:plain/old", "S:plain/old", "H:plain/old",
-	"A:add/all", "S:rem/all", "A:rep/all", "S:rep/all", "A:rem/all", "S:add/all",
-	"H:add/all", "H:rem/all", "H:rep/all",
+	"A:plain/old(t)", "S:plain/old", "H:plain/old",
+	"A:add/all", "S:rem/all", "A:rep/all", "S:rep/all", "A:rem/all(t)", "S:add/all(t)",
+	"H:add/all(t)", "H:rem/all", "H:rep/all",
 	"A:rep/under", "S:add/under", "H:rep/under",
-	"A:rep/badstate", "A:rem/badstate", "S:rep/badroot", "A:add/badroot",
+	"A:rep/badstate", "A:rem/badstate(t)", "S:rep/badroot", "A:add/badroot",
 	"restart",
+}
+
+var handoverEvents []string
+
+func initEvents(thorough bool) {
+	for _, e := range handoverEventsAll {
+		if strings.HasSuffix(e, "(t)") {
+			if !thorough {
+				continue
+			}
+			e = strings.TrimSuffix(e, "(t)")
+		}
+		handoverEvents = append(handoverEvents, e)
+	}
 }
 
 // apply one event; returns false when the event is not applicable in this state.
@@ -752,11 +776,17 @@ func (w *hworld) replay(path []string) *sim {
 	return s
 }
 
+// bfs: mc.BFS where a state is an event path. The worker that expands a state keeps ONE ledger positioned
+// at that state for as long as events are rejected (a rejected event must leave the state key unchanged,
+// which is itself checked); after an event that moved the ledger the next event starts from a fresh
+// replay of the path from genesis.
 func (w *hworld) bfs(depth, workers int) mc.Stats {
 	s0 := w.open()
 	init := hst{key: s0.key()}
 	s0.close()
-	return mc.BFS(mc.Config[hst]{
+	var cache sync.Map // path string -> *sim positioned at that state
+	lastEv := handoverEvents[len(handoverEvents)-1]
+	st := mc.BFS(mc.Config[hst]{
 		Init: []hst{init},
 		Events: func(s hst, d int) []string {
 			if s.dead {
@@ -765,21 +795,38 @@ func (w *hworld) bfs(depth, workers int) mc.Stats {
 			return handoverEvents
 		},
 		Step: func(s hst, e string) (hst, bool) {
-			sm := w.replay(s.path)
-			defer sm.close()
-			if sm.diverge != "" {
-				return hst{}, false
+			pk := strings.Join(s.path, " ")
+			var sm *sim
+			if c, ok := cache.LoadAndDelete(pk); ok {
+				sm = c.(*sim)
+			} else {
+				sm = w.replay(s.path)
+				atomic.AddInt64(&nReplays, 1)
+				if sm.diverge != "" || sm.key() != s.key {
+					r.HarnessError("replay of %v is not deterministic: %q vs %q", s.path, sm.key(), s.key)
+				}
 			}
 			p := append(append([]string{}, s.path...), e)
-			if !sm.apply(e, p) {
+			ok := sm.apply(e, p)
+			nk := sm.key()
+			if (!ok || nk == s.key) && e != lastEv {
+				cache.Store(pk, sm)
+			} else {
+				sm.close()
+			}
+			if !ok {
 				return hst{}, false
 			}
-			return hst{path: p, key: sm.key(), dead: sm.diverge != ""}, true
+			return hst{path: p, key: nk, dead: sm.diverge != ""}, true
 		},
 		Key:      func(s hst) string { return s.key },
 		MaxDepth: depth, Workers: workers, Stop: r.Expired,
 	})
+	cache.Range(func(k, v any) bool { v.(*sim).close(); return true })
+	return st
 }
+
+var nReplays int64
 
 // ---------------------------------------------------------------------------------------------
 
@@ -789,6 +836,7 @@ func main() {
 		tmpDirs.Range(func(k, _ any) bool { os.RemoveAll(k.(string)); return true })
 	}()
 	maxN := r.QT(7, 10)
+	initEvents(r.Thorough())
 	depth := r.QT(3, 4)
 	r.Require("private-legacy/accept", "private-legacy/reject", "main-legacy/accept", "main-legacy/reject",
 		"main-boundary/accept", "main-boundary/reject", "main-new/accept", "main-new/reject",
@@ -848,7 +896,11 @@ func main() {
 			go func(b int) {
 				defer wg.Done()
 				w := &hworld{main: main, n0: b, g: gen[b], vals: polyenv.Keys(b)}
-				st := w.bfs(depth, 6)
+				d := depth - 1
+				if (!main && b == 7) || (main && b == 4) {
+					d = depth // 7 -> 8 crosses the legacy threshold 1 -> 2; 4 -> 5 crosses the new-rule threshold 3 -> 4
+				}
+				st := w.bfs(d, 6)
 				mu.Lock()
 				states += st.States
 				transitions += st.Transitions
@@ -877,6 +929,7 @@ func main() {
 	}
 	r.Note("observed_thresholds", tt)
 	r.Note("handover_bfs", bfsInfo)
+	r.Note("cpu_profile_s", map[string]any{"ledger_opens": nOpen, "open_s": time.Duration(tOpen).Seconds(), "close_s": time.Duration(tClose).Seconds(), "calls_s": time.Duration(tCall).Seconds()})
 	r.Assume("ECDSA P-256 / SHA-256 from ontology-crypto are correct (the reference counts valid signatures with the same primitives)",
 		"new-rule region reached by making len(headerIndex) answer > 20 000 000 through an in-package accessor (entry count of the map header set; thorough tier cross-checks one ledger against a genuinely inflated 20 000 001-entry index)",
 		"legacy rule taken to apply while the ledger's header tip (GetCurrentHeaderHeight) is <= 20 000 000 on main net, i.e. the header 20 000 001 itself is still verified under the legacy rule",
@@ -895,5 +948,8 @@ func main() {
 		"traces_validated_against_impl": transitions + int(nCalls),
 		"max_depth":                     maxDepth,
 		"handover_bases":                map[string][]int{"private": {4, 7, 8}, "main-new": {3, 4}},
+		"handover_events":               handoverEvents,
+		"handover_depth":                fmt.Sprintf("%d for private N0=7 and main-new N0=4, %d for the other bases", depth, depth-1),
+		"handover_replays_from_genesis": nReplays,
 	})
 }
